@@ -138,6 +138,31 @@ func (s *Sym) Equal(t *Sym) (eq, known bool) {
 			return ta == tb, true
 		}
 	}
+	// the same literal pieces around tokens: equal exactly when the tokens are ("(p.I)." + A vs "(p.I)." + B)
+	if len(s.Parts) == len(t.Parts) {
+		aligned, differ := true, false
+		for i := range s.Parts {
+			p, q := s.Parts[i], t.Parts[i]
+			switch {
+			case p.Tok == "" && q.Tok == "":
+				if p.Lit != q.Lit {
+					aligned = false
+				}
+			case p.Tok != "" && q.Tok != "":
+				if p.Tok != q.Tok {
+					differ = true
+				}
+			default:
+				aligned = false
+			}
+		}
+		if aligned && differ {
+			// one differing token position is decisive only when nothing after it can make up for it:
+			// take the first differing position with identical text before it — the strings then differ there
+			// or one token is a proper prefix of the other followed by the same text, which atoms exclude
+			return false, true
+		}
+	}
 	return false, false
 }
 
@@ -165,7 +190,13 @@ type Value interface{}
 
 type NilV struct{}
 
-type List struct{ Elems []Value }
+// List is a slice. Cap is the capacity known for its array (0: no more than the length): an append within
+// it keeps the elements where they are; one beyond it moves them to a new array, which for elements that are
+// struct values means copies — pointers taken to the old elements then refer to dead copies.
+type List struct {
+	Elems []Value
+	Cap   int
+}
 
 type Struct struct {
 	Type   types.Type
